@@ -66,7 +66,7 @@ CLAIMS = {
         engine="AST term rules",
         text="Static, partial: the wiring of the strapdown model is decided -- one composed orientation (state x calibration) rotates gyro and bias-corrected "
              "specific force, gravity is added after the rotation, the orientation step is q + 0.5*q.mul(Q(0,gyro))*dt in that operand order, and each "
-             "velocity / position entry is the dt-integral of its own axis; symbols sit in the sets the property names.",
+             "velocity / position entry is the dt-integral of its own axis; symbols sit in the sets the property names. Shared: NV-* (named vector), the temporaries protocol of python.BasicBlock (TMP-1/2/4), PY-ONCE, PY-PURE.",
         note="NOT decided: the polynomial identities themselves (signs inside quaternion products, sympy's to_rotation_matrix / integrate) -- they need "
              "computer algebra on the built expressions, i.e. execution or a solver, outside this family. The last sentence of the property is C01.",
         ref="3/C19"),
@@ -137,7 +137,7 @@ CLAIMS = {
         engine="E2 layout + tmprules",
         text="Static: python.Model's sorted argument lists, block statements, frozen calibration vector, execute() actuals, result zip and "
              "by-name State construction are layout-typed for every model at once; python.BasicBlock's compile/execute follow the "
-             "temporaries protocol for both CSE settings; sympy is only called with its trusted signatures.",
+             "temporaries protocol for both CSE settings; sympy is only called with its trusted signatures. Shared rule sets: the named-vector container binds by name (NV-*), the temporaries protocol, no module-/class-level state (PY-PURE).",
         note="Trusted base: sympy cse/simplify/lambdify preserve value under their default contracts; floating-point accuracy is not decided.",
         ref="3/C01"),
     "C08": dict(
@@ -160,14 +160,14 @@ CLAIMS = {
         engine="E2 layout + E3 matform + E6 effects",
         text="Static: process_model's products/sums conform on name-typed (primed) axes; returned covariance normalises to "
              "G.P.G^T + V.M.V^T; returned state is the state-model call on the same (dt, state, control); noise matrix is filled by "
-             "control name; the prediction path has no write effects.",
+             "control name; the prediction path has no write effects. Shared: NV-* on the named vector / covariance containers; PY-PURE (no state shared between filters).",
         note="Trusted base: numpy matmul/transpose/+; values of G, V, f (C03, sympy). P, M symmetric as the property states.",
         ref="3/C04"),
     "C05": dict(
         technique="abstract interpretation (axis typing) + non-commutative normal forms (static)",
         engine="E2 layout + E3 matform",
         text="Static: sensor_model's S, recorded innovation, posterior state and covariance normalise to the Kalman forms; Q is a "
-             "by-name covariance over the sensor's sorted readings; all products/sums conform on name-typed axes (no broadcast).",
+             "by-name covariance over the sensor's sorted readings; all products/sums conform on name-typed axes (no broadcast). Shared: PY-PURE (no class-level record dicts shared between filters).",
         note="Trusted base: numpy linalg.inv/matmul; values of H, h (C03, sympy). Corollaries of the formulas are not separately checked.",
         ref="3/C05"),
     "C10": dict(
@@ -191,7 +191,7 @@ CLAIMS = {
              "reading's own key and data, output propagation returned and never held, control required (guard = exactly `control is None and "
              "control_size > 0`; for the C++ overloads the literal static_assert or, failing that, compile-fail witnesses) and passed on, no reading "
              "skipped (`continue` is structured into a guard), Python and C++ skeletons equal and both step functions on the one step-plan template "
-             "(STEP-SIBLINGS).",
+             "(STEP-SIBLINGS). STEP-SIBLINGS includes CHAIN: every prediction step of both runtimes starts from the result of the previous one.",
         note="Trusts clang's front end. The step function's own purity is C10/READ-ONLY. Values of process/sensor models are C04/C05.",
         ref="3/C11"),
 }
